@@ -28,6 +28,10 @@ def env_closure(mir_path):
             bad[base] = bad.get(base, 0) + 1
     return n, bad
 
+def json_key(o):
+    import json
+    return json.dumps(o, sort_keys=True)
+
 def run(tier, seed):
     c = common.Check('C19', tier, seed, 'symbolic execution of main (MIR) with demonic HashMap/HashSet iteration order and stubbed environment; lock-step reference rendering; structural closure of environment calls over the MIR; native replay under varied environment')
     c.functions |= {'main', 'run', 'builtins::fns::print', 'builtins::fns::render', 'bind_object (HashSet of remaining keys)', 'bind_next_name (names_in_binding)', 'validate_args (HashMap)', 'ScopeStack (HashMap)', 'env::args / current_dir / read_to_string / _print / _eprint / exit (stubs)'}
@@ -35,6 +39,43 @@ def run(tier, seed):
     c.bounds = {'render': 'one depth-4 structure along 6 construction histories (selector), aliased vs copied children, scalars and empties; leaves symbolic', 'hash_order': 'collect over 3 and 4 remaining keys: all 6 / 24 orders explored (demonic)', 'templates': len(ts)}
     c.outside = ['locale, stdin, pipe-vs-file, repeated process runs: no code path reads them (environment closure below); exercised only by the native replays', 'strings containing newlines inside containers (layout not stated)']
     c.run_family('render', ts, ('exit', 'stdout', 'stderr-empty', 'panic', 'hang'), render.role, par_templates=6, par_paths=3)
+    # (a') determinism across hash orders: concrete scripts whose outcome could depend on an iteration order; all explored orders
+    #      must give byte-identical stdout / stderr / exit status (decided across paths, independent of the reference's silence)
+    DET = {
+        'eq-two-deciding-keys': 'print({"a": 1, "b": "x", "c": 3, "d": 4} == {"a": 2, "b": 3, "c": "y", "d": 4})\n',
+        'eq-mismatch-everywhere': 'print(0)\nprint({"p": 1, "q": [2], "r": "s", "t": null} == {"p": "1", "q": 2, "r": 3, "t": 0})\n',
+        'eq-nested': 'x := {"k": {"a": 1, "b": [1], "c": 2}, "l": 1}\ny := {"k": {"a": "1", "b": 1, "c": 3}, "l": 2}\nprint(x != y)\n',
+        'destructure-many-missing': '{a, b, c, d} := {"z": 1}\n',
+        'destructure-many-bad': '{"a": [x], "b": [y], "c": [z]} := {"a": 1, "b": 2, "c": 3}\n',
+        'dup-names': 'o := {"a": 1, "b": 2, "c": 3, "d": 4}\n{a, "b": a, "c": a, ..a} := o\n',
+        'collect-six': 'o := {"f": 6, "e": 5, "d": 4, "c": 3, "b": 2, "a": 1, "g": 7}\n{a, ..rest} := o\nprint(rest)\nfor [k, v] in rest {\n    print(k)\n}\n{..all} := rest\nprint(all == rest)\n',
+        'print-for-seven': 'o := {}\nfor [i, k] in ["q", "w", "e", "r", "t", "y", "u"] {\n    o[k] = i\n}\nprint(o)\nfor [k, v] in o {\n    print(k)\n}\nprint({o.., "a": 0} == {"a": 0, o..})\n',
+        'params-dup': 'fn f({a, b, c}, [a, b, c]) {\n    return 1\n}\n',
+        'scope-many': 'a := 1\nb := 2\nc := 3\nd := 4\ne := 5\nfn f() {\n    return [a, b, c, d, e]\n}\nprint(f())\nprint(zz)\n',
+    }
+    for name, src in DET.items():
+        def pf(M, src=src):
+            try: code, out, err = H.run_cli(M, 't.sd', src.encode())
+            except Panic as e: return {'panic': str(e)[:200]}
+            return {'code': code, 'out': H.conc(out).decode('latin1'), 'err': H.conc(err).decode('latin1')}
+        rows, st = X.explore(c.M, pf, par=8, timeout=300, tag='det')
+        c.states += len(rows); c.transitions += st['steps']; c.obligations += 1
+        if st['timed_out']: c.inconclusive.append('determinism/%s: exploration timed out' % name); continue
+        bad = [r for r in rows if r['status'] != 'ok']
+        if bad: c.inconclusive.append('determinism/%s: %s %s' % (name, bad[0]['status'], bad[0]['detail'][:200])); continue
+        outs_ = {json_key(r['obs']) for r in rows}
+        if len(outs_) <= 1: c.discharged += 1; continue
+        # native confirmation: repeated runs must show at least two different outcomes
+        wd2 = os.path.join(common.TMP, 'c19-det-%d' % os.getpid()); seen = set()
+        for rep in range(40):
+            nat = F.native_run(c.binary, src, wd2); seen.add((nat[0], nat[1], nat[2])); c.replayed += 1
+            if len(seen) > 1: break
+        shutil.rmtree(wd2, ignore_errors=True)
+        if len(seen) > 1:
+            c.replay_ok += 1
+            c.note_violation('hash-order-dependence', 'the outcome of %s depends on hash iteration order: %d different outcomes over the explored orders, e.g. %r; natively %d different outcomes in %d runs' % (name, len(outs_), sorted(outs_)[:2], len(seen), rep + 1), src.encode())
+        else:
+            c.inconclusive.append('determinism/%s: %d different outcomes over the explored hash orders but 40 native runs agree' % (name, len(outs_)))
     # (b1) environment closure over the MIR
     n, bad = env_closure(c.mir_path)
     c.obligations += 1
